@@ -11,6 +11,7 @@ import (
 
 	"github.com/golang/protobuf/proto"
 
+	"github.com/itchio/wharf/bsdiff"
 	"github.com/itchio/wharf/pwr"
 
 	"verif/harness/lib"
@@ -145,6 +146,26 @@ func c10Corpus(scs []*c10Scenario, add func(*c10Plan)) {
 				}
 				break
 			}
+		}
+		// a control in the middle of a series that leaves a negative / too large old offset behind
+		for i, m := range sc.Opt.Msgs {
+			ct, ok := m.(*bsdiff.Control)
+			if !ok || ct.Eof || i+1 >= len(sc.Opt.Msgs) {
+				continue
+			}
+			if nx, ok := sc.Opt.Msgs[i+1].(*bsdiff.Control); !ok || nx.Eof {
+				continue
+			}
+			for _, v := range []int64{-(1 << 40), 1 << 40} {
+				s := sc.Opt.clone()
+				s.Msgs[i].(*bsdiff.Control).Seek = v
+				plan(sc, "opt", c10FPatFresh, fmt.Sprintf("Control %d seek=%d in the middle of a bsdiff series (old offset outside the old file)", i, v), s)
+				// ... and the next control adds from there
+				s2 := s.clone()
+				s2.Msgs[i+1].(*bsdiff.Control).Add = make([]byte, 64)
+				plan(sc, "opt", c10FPatFresh, fmt.Sprintf("Control %d seek=%d, next control adds 64 bytes from there", i, v), s2)
+			}
+			break
 		}
 		// an optimized patch fed to the optimizer again: controls read as BLOCK_RANGE ops
 		plan(sc, "opt", c10FRediff, "optimized patch fed to rediff (bsdiff series read as rsync ops)", sc.Opt.clone())
